@@ -37,10 +37,15 @@ func runTimer(ops []string) []string {
 	expectFire := false
 	for _, op := range ops {
 		switch op {
-		case "Rs", "Rl":
+		case "Rs", "Rl", "Rz", "Rn":
 			d := time.Millisecond
-			if op == "Rl" {
+			switch op {
+			case "Rl":
 				d = time.Hour
+			case "Rz":
+				d = 0 // a deadline that has just passed: fires at once
+			case "Rn":
+				d = -time.Millisecond
 			}
 			done := make(chan struct{})
 			tt := t
@@ -56,7 +61,7 @@ func runTimer(ops []string) []string {
 				}
 				return obs
 			}
-			expectFire = op == "Rs"
+			expectFire = op != "Rl"
 		case "W":
 			// wait for the 1 ms timer to have fired (poll; bounded), else a short pause
 			if expectFire {
@@ -97,7 +102,8 @@ func runTimer(ops []string) []string {
 	return obs
 }
 
-var opCoq = map[string]string{"Rs": "HReset true", "Rl": "HReset false", "W": "HWait", "T": "HTryRecv", "S": "HStop"}
+// Reset(0) and Reset(d < 0) are short timers too: they fire (once) as soon as the runtime gets to it
+var opCoq = map[string]string{"Rs": "HReset true", "Rz": "HReset true", "Rn": "HReset true", "Rl": "HReset false", "W": "HWait", "T": "HTryRecv", "S": "HStop"}
 
 func main() {
 	seed := flag.Int64("seed", 1, "")
@@ -114,6 +120,18 @@ func main() {
 		secs = append(secs, -2, 1, 253402300799, -62135596800, rng.Int63n(9e12), -rng.Int63n(9e12))
 	}
 	var micro []microCase
+	// the two ends of what an int64 of microseconds can represent: the lowest second
+	// holds MinInt64 = -9223372036855 s + 224192 us, the highest MaxInt64 = 9223372036854 s + 775807 us
+	const loSec, hiSec = int64(-9223372036855), int64(9223372036854)
+	for _, n := range []int64{224192000, 224192001, 224192499, 224192500, 224193000, 500000000, 999999499, 999999500, 999999999} {
+		micro = append(micro, doMicro(loSec, n))
+	}
+	for _, n := range []int64{0, 1, 499, 500, 1000, 500000000, 775806499, 775806500, 775807000, 775807499} {
+		micro = append(micro, doMicro(loSec+1, n), doMicro(hiSec, n), doMicro(hiSec-1, n))
+	}
+	for i := 0; i < 60; i++ {
+		micro = append(micro, doMicro(loSec, 224192000+rng.Int63n(775808000)), doMicro(hiSec, rng.Int63n(775807500)))
+	}
 	windows := [][2]int64{{0, 1500}, {499000, 501000}, {999998000, 999999999}}
 	for _, s := range secs {
 		for _, w := range windows {
@@ -146,7 +164,8 @@ func main() {
 
 	// ---- from cases
 	var from []fromCase
-	for _, us := range []int64{0, 1, -1, 999999, 1000000, -999999, -1000000, -1000001, 4242424242424242, -62135596800000000, 9223372036854775807} {
+	for _, us := range []int64{0, 1, -1, 999999, 1000000, -999999, -1000000, -1000001, 4242424242424242, -62135596800000000, 9223372036854775807,
+		9223372036854775806, 9223372036854000000, 9223372036853999999, -9223372036854775808, -9223372036854775807, -9223372036854000000, -9223372036854000001, -9223372036854775808 + 775807} {
 		from = append(from, doFrom(us))
 	}
 	nfrom := 1500
@@ -159,7 +178,15 @@ func main() {
 			us = rng.Int63n(4e15) - 2e15
 		}
 		if i%7 == 0 {
-			us = (us / 1000000) * 1000000 + []int64{0, 1, -1, 999999, -999999}[rng.Intn(5)]
+			us = (us/1000000)*1000000 + []int64{0, 1, -1, 999999, -999999}[rng.Intn(5)]
+		}
+		if i%11 == 0 {
+			// near the ends of the int64 range
+			if rng.Intn(2) == 0 {
+				us = 9223372036854775807 - rng.Int63n(3000000)
+			} else {
+				us = -9223372036854775808 + rng.Int63n(3000000)
+			}
 		}
 		from = append(from, doFrom(us))
 	}
@@ -177,18 +204,24 @@ func main() {
 		{"Rs", "W", "S", "Rl", "W", "T"},      // fired, unread, stopped: must not be pooled with a value
 		{"Rl", "Rl", "Rs", "W", "W", "T", "T"},
 		{"S", "T", "W", "Rs", "W", "S", "Rs", "W", "T"},
+		{"Rs", "W", "T", "Rz", "W", "T", "Rs", "W", "T"},       // re-armed with a deadline already passed: fires, next Reset must not block
+		{"Rz", "W", "Rn", "W", "T", "Rl", "W", "T"},            // zero then negative, first not received
+		{"Rl", "Rn", "W", "T", "Rz", "W", "W", "T", "Rz", "W"}, // long timer replaced by an expired one
 	}
 	for _, c := range corpus {
 		timers = append(timers, timerCase{c, runTimer(c)})
 	}
-	alphabet := []string{"Rs", "Rl", "W", "T", "S"}
+	alphabet := []string{"Rs", "Rl", "W", "T", "S", "Rz", "Rn", "Rs", "W", "T"}
 	for i := 0; i < nt; i++ {
 		n := 1 + rng.Intn(14)
 		var ops []string
 		for len(ops) < n {
 			op := alphabet[rng.Intn(len(alphabet))]
-			if len(ops) > 0 && ops[len(ops)-1] == "Rs" && (op == "T" || op == "S") {
-				continue // race with the 1 ms timer: observation would be schedule-dependent
+			if last := ""; len(ops) > 0 {
+				last = ops[len(ops)-1]
+				if (last == "Rs" || last == "Rz" || last == "Rn") && (op == "T" || op == "S") {
+					continue // race with the timer: observation would be schedule-dependent
+				}
 			}
 			ops = append(ops, op)
 		}
@@ -239,7 +272,7 @@ func main() {
 	vh.WriteJSON(*out, "summary.json", map[string]interface{}{
 		"micro": len(micro), "from": len(from), "timer": len(timers),
 		"micro_carry_into_next_second": carry,
-		"distinct_nontrivial": len(nontriv),
-		"samples": []interface{}{micro[0], micro[len(micro)-1], from[len(from)-1], timers[3], timers[len(timers)-1]},
+		"distinct_nontrivial":          len(nontriv),
+		"samples":                      []interface{}{micro[0], micro[len(micro)-1], from[len(from)-1], timers[3], timers[len(timers)-1]},
 	})
 }
